@@ -43,6 +43,9 @@ SIGNATURES
       error class must be what the specification predicts. Returns counters; reports through ctx.
   validate_lzdecoder(ctx, runs, name="") -> dict       Trace_LzDecoder on recorded decoder + LzDecoder events
   rc_counters_equal(result) -> bool                    bytes pushed by the range encoder = bytes pulled by the decoder
+  validate_rangecoder(ctx, results, name="") -> dict   Trace_RangeCoder (real width, limb arithmetic) on `roundtrip` results of
+      .lzma jobs run with "bits": true, "emit_hex": true: every encoder / decoder bit event is the image of the previous
+      state; Encode's output = the real stream; BytesPulled = BytesPushed incl. the final lazy normalisation (C16)
 """
 import json, os, re, subprocess, time
 from concurrent.futures import ThreadPoolExecutor
@@ -400,6 +403,41 @@ def validate_lzdecoder(ctx, runs, name=""):
             res["state"] = r.trace[-1]["vars"]
             res["reached"] = len(r.trace) - 2
             res["next_event"] = lines[res["reached"]] if 0 <= res["reached"] < len(lines) else None
+    return res
+
+
+# --------------------------------------------------------------------------- range coder, real width
+def rc_trace_lines(result):
+    """Lines for Trace_RangeCoder from a `roundtrip` result of a .lzma job run with "bits": true, "emit_hex": true."""
+    ev = result.get("events") or []
+    enc = [e for e in ev if e.get("side") == "RE"]
+    dec = [e for e in ev if e.get("side") == "RD"]
+    if not enc or not dec or "hex" not in result:
+        return None
+    stream = bytes.fromhex(result["hex"])[13:]          # LZMA_Alone header: props, dict size, uncompressed size
+    d = result.get("dec_counters", {})
+    return ([{"side": "X"}] + enc + [{"side": "S", "bytes": list(stream)}] + dec +
+            [{"side": "F", "pulled": d.get("dec_pulled_stream", -1)}])
+
+
+def validate_rangecoder(ctx, results, name=""):
+    """Real-width per-bit trace validation of encoder and decoder against RangeCoderLimb (Trace_RangeCoder.tla)."""
+    lines = []
+    runs = 0
+    for r in results:
+        ls = rc_trace_lines(r)
+        if ls:
+            lines += ls
+            runs += 1
+    if not lines:
+        return {"accepted": True, "runs": 0, "events": 0}
+    ok, reached, total, r = core.validate_events("Trace_RangeCoder", {"LB": "16", "ShiftBits": "8", "ModelBits": "11", "MoveBits": "5"},
+                                                 lines, timeout=1500)
+    if ctx is not None:
+        ctx.note_tlc("trace RangeCoder " + name, r)
+    res = {"accepted": ok, "reached": reached, "total": total, "runs": runs, "events": len(lines), "tlc": r}
+    if not ok:
+        res["next_event"] = lines[reached] if reached is not None and reached < len(lines) else None
     return res
 
 
